@@ -133,8 +133,8 @@ def load_module(hashed_grammar, file_io, cache_path=None):
 
 
 def _load_from_file_system(hashed_grammar, path, p_time, cache_path=None):
-    cache_path = _get_hashed_path(hashed_grammar, path, cache_path=cache_path)
     try:
+        cache_path = _get_hashed_path(hashed_grammar, path, cache_path=cache_path)
         if p_time > os.path.getmtime(cache_path):
             # Cache is outdated
             return None
@@ -147,10 +147,21 @@ def _load_from_file_system(hashed_grammar, path, p_time, cache_path=None):
                 gc.enable()
     except FileNotFoundError:
         return None
-    else:
-        _set_cache_item(hashed_grammar, path, module_cache_item)
-        LOG.debug('pickle loaded: %s', path)
-        return module_cache_item.node
+    except Exception as e:
+        # The cache file can be truncated or contain garbage (e.g. after a
+        # crash or while another process is writing it) or the cache directory
+        # might not be accessible. Unpickling such a file raises all kinds of
+        # exceptions. This is just a cache miss, the file is going to be
+        # overwritten with the next save.
+        LOG.debug('pickle of %s could not be loaded: %r', path, e)
+        return None
+
+    if not isinstance(module_cache_item, _NodeCacheItem):
+        return None
+
+    _set_cache_item(hashed_grammar, path, module_cache_item)
+    LOG.debug('pickle loaded: %s', path)
+    return module_cache_item.node
 
 
 def _set_cache_item(hashed_grammar, path, module_cache_item):
